@@ -11,7 +11,9 @@ LEVEL = "exploration"
 RULE = ("cases are (function family, arguments) drawn by Hypothesis: id packing with id size 1..40, capacity 1..70, list "
         "length 0..300, block size in {default, cap*size, +1, +7, +cap, and < cap*size (must raise)}; byte strings with length "
         "vectors (matching and mismatching sums); ints up to 2^512 with widths; equal-length xor operands; JSON-like hex "
-        "databases; chunks. Oracles: round-trips and length laws. Non-trivial = (blocks: >= 2 blocks or a partial last block "
+        "databases (identifiers also beginning with U+FEFF and other characters decoders treat specially); chunks; histories over 2-3 "
+        "partitions of the same geometry consumed in an arbitrary interleaving with generators abandoned, closed and restarted (each block "
+        "compared with an independent payload+padding computation). Oracles: round-trips and length laws. Non-trivial = (blocks: >= 2 blocks or a partial last block "
         "or block padding) / (split: >= 2 pieces) / (int: >= 2 bytes or padded width) / (db: >= 2 keywords); distinct = "
         "distinct case.")
 ASSUMPTIONS = ["identifiers are non-zero byte strings of exactly the stated size (the property's domain)",
@@ -63,6 +65,51 @@ def run_case(case):
                 if back != ids:
                     raise Violation("parse-by-count(partition(ids)) != ids (%d vs %d ids)" % (len(back), len(ids)),
                                     "blocks:parse_count")
+        elif fam == "blocks_history":
+            # several partitions of lists with the same geometry, consumed in an arbitrary interleaving; generators may be
+            # abandoned half-way, closed, or restarted; every block handed out must be the block an independent computation
+            # gives (payload + zero padding), and the blocks of one list must parse back to that list
+            size, cap, bs = case["size"], case["cap"], case["block_size"]
+            eff = bs if bs else cap * size
+            lists = [[B(x) for x in ids] for ids in case["lists"]]
+
+            def ref_block(g, j):
+                part = lists[g][j * cap:(j + 1) * cap]
+                return b"".join(part).ljust(eff, b"\x00") if part else None
+            gens, pos = {}, {}
+            schedule = [list(s) for s in case["schedule"]] + [["restart", g] for g in range(len(lists))]
+            for n_op, (op, g) in enumerate(schedule):
+                g %= len(lists)
+                if op in ("start", "restart") or g not in gens:
+                    if op == "restart" and g in gens:
+                        del gens[g]   # dropped without close(): the generator is simply forgotten
+                    if g not in gens or op == "start":
+                        gens[g], pos[g] = du.partition_identifiers_to_blocks(lists[g], cap, size, bs), 0
+                if op == "close":
+                    gens[g].close()
+                    del gens[g]
+                    continue
+                steps = 1 if op == "next" else (10 ** 6 if op == "restart" else 0)
+                got_blocks = []
+                for _ in range(steps):
+                    b = next(gens[g], None)
+                    want = ref_block(g, pos[g])
+                    if b != want:
+                        raise Violation("schedule step #%d (%s list %d): block %d is %r, expected %r (schedule %r)" % (
+                            n_op, op, g, pos[g], None if b is None else b.hex(), None if want is None else want.hex(),
+                            schedule[:n_op + 1]), "blocks_history:block")
+                    if b is None:
+                        del gens[g]
+                        break
+                    got_blocks.append(b)
+                    pos[g] += 1
+                if op == "restart":
+                    back = []
+                    for b in got_blocks:
+                        back.extend(du.parse_identifiers_from_block_given_identifier_size(b, size))
+                    if back != lists[g]:
+                        raise Violation("after the interleaved schedule, parse(partition(list %d)) != list (%d vs %d ids)" % (g, len(back), len(lists[g])),
+                                        "blocks_history:parse")
         elif fam == "split":
             x = B(case["x"])
             lens = case["lens"]
@@ -198,7 +245,7 @@ def st_ids(draw, size, n):
 
 @st.composite
 def st_case(draw):
-    fam = draw(st.sampled_from(FAMILIES[:-1] + ["blocks", "blocks", "split"]))
+    fam = draw(st.sampled_from(FAMILIES[:-1] + ["blocks", "blocks", "split", "blocks_history", "blocks_history"]))
     c = {"fam": fam}
     if fam in ("blocks", "blocks_small"):
         size = draw(st.one_of(st.integers(1, 8), st.integers(1, 40)))
@@ -215,6 +262,14 @@ def st_case(draw):
             if c["block_size"] == -1:
                 c["fam"] = "blocks"
                 c["block_size"] = 0
+    elif fam == "blocks_history":
+        size = draw(st.integers(1, 6))
+        cap = draw(st.integers(1, 6))
+        nl = draw(st.integers(2, 3))
+        lists = [[H(x) for x in draw(st_ids(size, draw(st.integers(0, 3 * cap + 2))))] for _ in range(nl)]
+        c.update(size=size, cap=cap, block_size=draw(st.sampled_from([0, 0, cap * size + 3, 2 * cap * size])), lists=lists,
+                 schedule=draw(st.lists(st.tuples(st.sampled_from(["next", "next", "next", "start", "close", "restart"]),
+                                                  st.integers(0, nl - 1)).map(list), min_size=2, max_size=14)))
     elif fam == "split":
         lens = draw(st.lists(st.one_of(st.integers(1, 8), st.integers(1, 64)), min_size=0, max_size=12))
         x = draw(st.binary(min_size=sum(lens), max_size=sum(lens)))
@@ -237,7 +292,12 @@ def st_case(draw):
         n = draw(st.integers(0, 80))
         c.update(a=H(draw(st.binary(min_size=n, max_size=n))), b=H(draw(st.binary(min_size=n, max_size=n))))
     elif fam == "hex":
-        raw = draw(st.one_of(st.binary(max_size=24), st.text(max_size=8).map(lambda s: s.encode("utf-8"))))
+        raw = draw(st.one_of(st.binary(max_size=24), st.text(max_size=8).map(lambda s: s.encode("utf-8")),
+                             # text / bytes that begin with characters decoders like to treat specially
+                             st.tuples(st.sampled_from(["\ufeff", "\ufeff\ufeff", "\ufffe", "\u200b", "\x00", "\ufffd", "\u2028", "\r\n"]),
+                                       st.text(max_size=6)).map(lambda t: (t[0] + t[1]).encode("utf-8")),
+                             st.tuples(st.sampled_from([b"\xef\xbb\xbf", b"\xff\xfe", b"\xfe\xff", b"\xef\xbb", b"\x00\x00\xfe\xff"]),
+                                       st.binary(max_size=6)).map(lambda t: t[0] + t[1])))
         h = raw.hex()
         if draw(st.booleans()):
             h = h.upper()
@@ -277,6 +337,9 @@ def is_nontrivial(c):
         return len(c["db"]) >= 2
     if fam == "chunks":
         return len(c["lst"]) > c["n"]
+    if fam == "blocks_history":
+        ops = [s[0] for s in c["schedule"]]
+        return "next" in ops and len({s[1] for s in c["schedule"]}) >= 2
     return False
 
 
@@ -288,6 +351,15 @@ def classes_of(c):
         out.append("blocks:bs=" + ("default" if c["block_size"] == 0 else "tight" if c["block_size"] == cap * size else "padded"))
         if c["block_size"] and (c["block_size"] // cap == size):
             out.append("blocks:by_count_applicable")
+    if c["fam"] == "blocks_history":
+        ops = [s[0] for s in c["schedule"]]
+        for o in ("close", "restart", "start"):
+            if o in ops:
+                out.append("blocks_history:has_" + o)
+    if c["fam"] == "hex":
+        raw = bytes.fromhex(c["h"])
+        if raw[:3] == b"\xef\xbb\xbf":
+            out.append("hex:starts_with_U+FEFF")
     return out
 
 
